@@ -60,7 +60,9 @@ pub fn main() -> i32 {
     for b in blocks {
         use std::io::Write;
         let _ = std::io::stdout().flush();
-        let status = crate::defaults::fork_classify(|| { run_child(&b); 0 });
+        // 199 = "ran to the end"; every other exit status is the library's doing
+        let status = crate::defaults::fork_classify(|| { run_child(&b); 199 });
+        let status = match status.as_str() { "exit:199" => "continues".to_string(), "continues" => "exit:0".to_string(), "err" => "exit:3".to_string(), s => s.to_string() };
         println!("exit {}", status);
         println!("---");
     }
